@@ -45,6 +45,8 @@ def eval_pred(toks, e: Event, h) -> bool:
     if op == 'grplt':
         g = '' if toks[1] == '~' else toks[1]
         return sum(len(es) for k, es in h if k == g) < int(toks[2])
+    if op == 'simple':
+        return eval_pred(toks[1:], e, h) if e[2] == 's' else False
     if op == 'raiseif':
         if d == int(toks[1]):
             raise Raised()
